@@ -113,7 +113,8 @@ theorem C19_no_spurious {h : List (Ev α ε)} {s : State α ε} (hr : run init h
 
 /-- **The result does not depend on how long the call waited.** The stub's wait for the reply
     is not bounded by any time-out (`context.Background()`), and the model has no step by which a
-    pending call could end other than `ret` with the callback's own result: whatever happens
+    pending call could end other than `ret` with the callback's own result — or `gone`, the
+    caller's going away, after which there is no `ret` (`C19_gone_no_result`): whatever happens
     between the plugin's call and its return — `mid` is ANY history, however long: other
     plugins' updates queued ahead, long runtime requests holding the mutex — the callback ran
     exactly once for it, with exactly the list sent, and the value returned is that result. -/
@@ -156,7 +157,7 @@ theorem C19_result_independent_of_wait {pre mid : List (Ev α ε)} {u : Uid} {p 
               simp only at hu2
               rw [hc] at g2
               simp only [callOk] at g2
-              refine ⟨r, ?_, ?_, ho⟩
+              refine ⟨r, ?_, ?_, ho.1⟩
               · simp only []; rw [g2.1, hu2]
               · simp [g2.2]
             · cases hs3
@@ -234,6 +235,68 @@ theorem C19_exclusive_interval_req {pre m : List (Ev α ε)} {r : Rid} {s : Stat
       exact (interval_exclusive hmu hr hnl).1
     · cases hr
 
+/-! ### the caller goes away while its update is being processed -/
+
+/-- **The caller's going away moves nothing on the runtime side.** When the connection of the
+    plugin that sent call `u` is lost, or the caller stops waiting, the adaptation mutex stays
+    where it is, whoever is inside stays inside, the call keeps its phase (a callback in progress
+    stays in progress), and no invocation and no result is added or removed. In particular the
+    mutex is NOT released on behalf of a callback that has not finished. -/
+theorem C19_gone_keeps_lock {s s' : State α ε} {u : Uid} {e : StubErr ε}
+    (he : step? s (.gone u e) = some s') :
+    s'.mu = s.mu ∧ s'.inside = s.inside ∧ s'.call = s.call ∧ s'.fnRuns = s.fnRuns ∧
+      s'.rets = s.rets := by
+  simp only [step?] at he
+  split at he
+  · split at he
+    · injection he with he; subst he; exact ⟨rfl, rfl, rfl, rfl, rfl⟩
+    · cases he
+  · cases he
+
+/-- **Delivered at most once, unchanged, whatever becomes of the caller; a call ends once.** In
+    every accepted history a call ends at most once — with the callback's result or with the
+    transport's error because its caller went away, never both; a call whose caller went away
+    gets no result, and its update still reaches the callback at most once, and then with exactly
+    the list the plugin sent. -/
+theorem C19_gone_no_result {h : List (Ev α ε)} {s : State α ε} (hr : run init h = some s)
+    (u : Uid) :
+    (s.lost u).length + (s.rets u).length ≤ 1 ∧
+    (s.lost u ≠ [] → s.rets u = [] ∧ (s.fnRuns u).length ≤ 1 ∧
+      ∀ arg res, (arg, res) ∈ s.fnRuns u → ∃ p ph, s.call u = some ⟨p, arg, ph⟩) := by
+  have g := goodM_run hr
+  refine ⟨g.ends u, ?_⟩
+  intro hl
+  refine ⟨?_, (C19_once hr u).1, fun arg res hm => C19_passthrough_arg hr u arg res hm⟩
+  have := g.ends u
+  cases hlu : s.lost u with
+  | nil => exact absurd hlu hl
+  | cons a t =>
+    rw [hlu] at this
+    cases hru : s.rets u with
+    | nil => rfl
+    | cons b t' => rw [hru] at this; simp at this; omega
+
+/-- **Exclusive across the caller's going away (interval form).** After call `u` acquired the
+    mutex, until `u` itself releases it, the history contains no event of anybody else's section —
+    also when `u`'s caller goes away in the middle (`gone u` is not a release). -/
+theorem C19_exclusive_gone {pre m₁ m₂ : List (Ev α ε)} {u : Uid} {e : StubErr ε} {s : State α ε}
+    (hr : run init (pre ++ [.enter u] ++ (m₁ ++ [.gone u e] ++ m₂)) = some s)
+    (hnl : ∀ x ∈ m₁ ++ m₂, releases (.upd u) x = false) :
+    ∀ x ∈ m₁ ++ m₂, foreignTo (.upd u) x = false := by
+  have hnl' : ∀ x ∈ m₁ ++ [.gone u e] ++ m₂, releases (.upd u) x = false := by
+    intro x hx
+    simp only [List.mem_append, List.mem_singleton] at hx
+    rcases hx with (hx | rfl) | hx
+    · exact hnl x (List.mem_append_left _ hx)
+    · rfl
+    · exact hnl x (List.mem_append_right _ hx)
+  intro x hx
+  refine C19_exclusive_interval hr hnl' x ?_
+  simp only [List.mem_append, List.mem_singleton] at hx ⊢
+  rcases hx with hx | hx
+  · exact Or.inl (Or.inl hx)
+  · exact Or.inr hx
+
 /-! ### non-vacuity -/
 
 /-- two plugins' updates and a request interleave (as far as the mutex allows); call 0 fails
@@ -259,5 +322,31 @@ example : run init ([.call 0 1 [10], .enter 0, .fn 0 [10] ⟨[10], none⟩, .lea
 example : run init ([.call 0 1 [10], .enter 0, .fn 0 [10] ⟨[], none⟩, .fn 0 [10] ⟨[], none⟩] :
     List (Ev Nat Nat)) = none := by decide
 example : run init ([.callUnstarted 3 [1] ([], none)] : List (Ev Nat Nat)) = none := by decide
+
+/-- plugin 1's connection is lost while the callback runs for its call 0: the call ends with the
+    transport's error, the callback finishes under the mutex, and only then the request and
+    plugin 2's update get in -/
+def demoGone : List (Ev Nat Nat) :=
+  [.call 0 1 [10, 11], .enter 0, .call 1 2 [20], .gone 0 (.rpc 99), .fn 0 [10, 11] ⟨[10], none⟩,
+   .leave 0, .reqBegin 5, .handler 5 2, .reqEnd 5, .enter 1, .fn 1 [20] ⟨[], none⟩, .leave 1,
+   .ret 1 ([], none)]
+
+example : ∃ s, run init demoGone = some s ∧ s.lost 0 = [.rpc 99] ∧ s.rets 0 = [] ∧
+    s.fnRuns 0 = [([10, 11], ⟨[10], none⟩)] ∧ s.rets 1 = [([], none)] ∧ s.inside = [] :=
+  ⟨_, rfl, by decide, by decide, by decide, by decide, by decide⟩
+
+/-- the model refuses: a request, or another plugin's update, getting in after the caller went
+    away but before the callback finished (the lock released early); a result delivered to a
+    caller that is gone; a caller going away twice, or after its call returned -/
+example : run init ([.call 0 1 [10], .enter 0, .gone 0 (.rpc 99), .reqBegin 5] :
+    List (Ev Nat Nat)) = none := by decide
+example : run init ([.call 0 1 [10], .call 1 2 [20], .enter 0, .gone 0 (.rpc 99), .enter 1] :
+    List (Ev Nat Nat)) = none := by decide
+example : run init ([.call 0 1 [10], .enter 0, .gone 0 (.rpc 99), .fn 0 [10] ⟨[], none⟩, .leave 0,
+    .ret 0 ([], none)] : List (Ev Nat Nat)) = none := by decide
+example : run init ([.call 0 1 [10], .gone 0 (.rpc 99), .gone 0 (.rpc 99)] :
+    List (Ev Nat Nat)) = none := by decide
+example : run init ([.call 0 1 [10], .enter 0, .fn 0 [10] ⟨[], none⟩, .leave 0, .ret 0 ([], none),
+    .gone 0 (.rpc 99)] : List (Ev Nat Nat)) = none := by decide
 
 end Nri.Props.C19
